@@ -582,4 +582,4 @@ def run(ctx):
                 "replay": dict(d, how="python3 translate/c49_tables.py && compare headers.* with python.* in lean/MjProof/Gen/IntrospectTables.json")}
     ctx.directed_search = directed
     if ctx.tier == "thorough":
-        ctx.leanchecker(["MjProof.Props.C49"])
+        ctx.leanchecker(["MjProof.Props.C49", "MjProof.Props.C49GenEnums"])
